@@ -26,7 +26,8 @@ pvars == <<vars, focus, cls>>
 PHash(b) == [b EXCEPT !.c = 1]
 EmptySet == [vals |-> <<>>, bad |-> {}]
 Push(st, b) ==
-  IF b.from \in st.bad THEN st
+  IF ~b.auth THEN st                                      \* VerifyPacketSignature: no node with that index
+  ELSE IF b.from \in st.bad THEN st
   ELSE IF b.from \in DOMAIN st.vals
        THEN IF PHash(st.vals[b.from]) = PHash(b) THEN st
             ELSE [vals |-> [x \in DOMAIN st.vals \ {b.from} |-> st.vals[x]], bad |-> st.bad \cup {b.from}]
@@ -114,7 +115,7 @@ DealRound ==
         IN /\ node' = [h \in Honest |-> r[h].s]
            /\ rbs' = {RB(h, 1, TRUE, FALSE, r[h].resp) : h \in {x \in Honest : r[x].has}}
            /\ fd' = pend
-           /\ badsec' = {}
+           /\ badsec' = {f \in F : \E i \in DOMAIN pend[f] : ~pend[f][i].sec}
            /\ cls' = IF LateConflict(all, [h \in Honest |-> r[h].used], Honest)
                      THEN cls \cup {"equivocating-dealer-late-conflict"} ELSE cls
            /\ hist' = Log([act |-> "PDeal", bundles |-> [i \in DOMAIN Asc(all) |-> DealJson(Asc(all)[i])],
